@@ -182,7 +182,19 @@ STARTUP = {
                  "box.B": [(2, (a, b, c)) for a in (0, 1) for b in (-1, 0, 1) for c in (0, 1)],
                  "neg.D": [(2, (a, b, 0)) for a in (-1, 0, 1) for b in (-1, 0)] + [(3, (2, 1, 0)), (3, (1, 0, 0))]},
 }
-REENTRY = {"quick": [("tri.U", 2, (1, 1, 0))], "thorough": [("tri.U", 2, (1, 1, 0)), ("tri.T", 2, (1, 1, 0)), ("box.B", 2, (1, 0, 1))]}
+# chunked generation: (class, box, globals, startup_chunk, startup_iter, placement bitmask, vpid_of table or None, min. calls)
+CHUNKED = {
+    "quick": [("tri.U", 3, (2, 2, 0), 2, 1, 32, None, 2), ("tri.T", 3, (2, 2, 0), 0, 0, 16, 0, 2)],
+    "thorough": [("tri.U", 3, (2, 2, 0), c, i, p, v, 2) for c, i, p, v in
+                 [(0, 0, 0, None), (0, 4, 0, 5), (1, 1, 0, None), (1, 2, 32, 0), (2, 1, 32, None), (2, 4, 0, None), (3, 1, 0, None), (3, 8, 2, 0)]] +
+                [("tri.T", 3, (2, 2, 0), c, i, p, v, 2) for c, i, p, v in [(0, 0, 16, 0), (1, 2, 0, None), (2, 1, 0, None), (1, 0, 2, 3)]] +
+                [("box.B", 3, (2, 2, 2), c, i, p, v, 2) for c, i, p, v in
+                 [(0, 1, 0, None), (1, 2, 0, None), (2, 2, 0, None), (3, 1, 0, None), (4, 8, 0, None), (1, 1, 4, 1)]] +
+                [("box.B", 3, (2, 2, 2), 5, 8, 0, None, 1)] +     # 8 tasks in batches of 2, 3, 3: never more than chunk -> one call
+
+                [("neg.D", 3, (2, 1, 0), c, i, p, v, 2) for c, i, p, v in [(0, 1, 0, None), (1, 2, 1, 0)]] +
+                [("tri.U", 2, (1, 1, 0), 1, 1, 0, None, 2)],
+}
 
 
 def _gen_jobs(tier):
@@ -213,17 +225,25 @@ def _gen_jobs(tier):
                          min_obligations=8,
                          bounded="corpus class %s, globals fixed to %s (box %d), one virtual process, one call of the generator that "
                                  "answers DONE (parsec_task_startup_iter symbolic, chunk not reached); placement symbolic" % (key, g, box)))
-    # (b) with re-entry: the generator is called again while it answers AGAIN (chunk and iter symbolic).  NOT part of the
-    # registered check: the smallest instance (tri.U, globals (1,1), 3 calls) ran out of 6 GB after 10 min of CBMC 6.11; the
-    # jump back into the loop nest (goto restore_context) defeats the unwinding.  Opt-in: VERIF_C01_REENTRY=1.
-    for key, box, g in (REENTRY[tier] if os.environ.get("VERIF_C01_REENTRY") else []):
-        d = {"GEN_CUT": '"%s"' % cuts[key], "JDF": names[key][0], "CLS": names[key][1], "CASE": case[key], "BOX": box, "RMAX": 3,
-             "FIX_G0": "(%d)" % g[0], "FIX_G1": "(%d)" % g[1], "FIX_G2": "(%d)" % g[2]}
-        J.append(Job("startup.reentry.%s.g%s" % (key, "_".join(str(x).replace("-", "m") for x in g[:NPAR[key]])), "h_gen.c",
-                     entry="h_startup", defines=d, unwind=box ** NPAR[key] + 2, unwindset=US_REL, extra_cc=["-I" + gdir], replay=False,
-                     functions=["__jdf2c_startup_%s (generated)" % names[key][1]], timeout=900, mem_gb=6, object_bits=12, min_obligations=8,
-                     bounded="corpus class %s, globals fixed to %s (box %d), <= 3 calls of the generator, parsec_task_startup_iter and "
-                             "_chunk symbolic" % (key, g, box)))
+    # (b) chunked generation: re-entry of the generator after it answered AGAIN.  Everything that decides a branch is fixed per
+    # process (chunk, iter, placement, vpid_of, globals); measured 7-70 s, <= 1.5 GB per configuration.
+    for key, box, g, chunk, it, place, vp, mincalls in CHUNKED[tier]:
+        d = {"GEN_CUT": '"%s"' % cuts[key], "JDF": names[key][0], "CLS": names[key][1], "CASE": case[key], "BOX": box, "RMAX": 12,
+             "FIX_G0": "(%d)" % g[0], "FIX_G1": "(%d)" % g[1], "FIX_G2": "(%d)" % g[2], "FIX_CHUNK": chunk, "FIX_ITER": it,
+             "PLACE": place, "MIN_CALLS": mincalls}
+        if vp is None:
+            d["NO_VPID_OF"] = None
+        else:
+            d["VP_TABLE"] = vp
+        J.append(Job("startup_chunked.%s.g%s.chunk%d.iter%d.place%d.%s" % (key, "_".join(str(x).replace("-", "m") for x in g[:NPAR[key]]),
+                                                                           chunk, it, place, "novp" if vp is None else "vp%d" % vp),
+                     "h_gen.c", entry="h_startup", defines=d, unwind=box ** NPAR[key] + 3, unwindset=dict(US_REL, **{"h_startup.0": 14}),
+                     extra_cc=["-I" + gdir],
+                     replay=False, functions=["__jdf2c_startup_%s (generated)" % names[key][1]], timeout=900, mem_gb=16, object_bits=12,
+                     min_obligations=10,
+                     bounded="corpus class %s, globals %s (box %d), parsec_task_startup_chunk=%d, parsec_task_startup_iter=%d, placement "
+                             "pattern %d, %s, one virtual process, generator re-entered until DONE (<= 12 calls)"
+                             % (key, g, box, chunk, it, place, "no vpid_of" if vp is None else "vpid_of table %d" % vp)))
     return J
 
 
@@ -251,7 +271,14 @@ META = dict(
                 "(upper bounds symbolic over the box, placement of every point symbolic).  (b) the startup generator hands to the scheduler, "
                 "exactly once each, the tasks of exactly the points that are in the space, local and without input dependency, carrying that "
                 "point's locals (derived ones included), class, taskpool, priority, marked as startup exactly once; globals enumerated one "
-                "cbmc process per tuple.  The composition (C07 ready-once, C08 scheduler returns once, C16 progress completes once) is an "
+                "cbmc process per tuple.  "
+                "CHUNKED GENERATION (jobs startup_chunked.*): the harness plays __parsec_task_progress' part (C16) and calls the generator "
+                "again and again on the same untouched task object while it answers AGAIN (re-entry through the restore_context labels), "
+                "with parsec_task_startup_chunk, parsec_task_startup_iter, the placement pattern and vpid_of FIXED per cbmc process "
+                "(enumerated); over all calls together every startup instance is produced exactly once, none twice, no other; every "
+                "created task was handed to __parsec_schedule_vp before the generator yields; it yields only after more than "
+                "startup_chunk new tasks; DONE is reached (within 12 calls) exactly with all instances produced; a non-vacuity lemma "
+                "checks that each configuration really re-enters the generator.  The composition (C07 ready-once, C08 scheduler returns once, C16 progress completes once) is an "
                 "argument, not a discharged obligation.",
     trusted_base=["stubs behind tc->find_deps / tc->update_deps (C07 contracts), __parsec_execute / __parsec_complete_execution (C16), "
                   "parsec_thread_mempool_allocate_when_empty (malloc of one parsec_task_t, mempool_owner set), "
@@ -271,6 +298,8 @@ META = dict(
                  "exactly once; C16: __parsec_task_progress completes a task exactly once (composition argued, not checked)",
                  "dest_flow->flow_index < nb_flows (the code's assert)",
                  "the ready ring passed to release_local_OUT_dependencies is thread-private",
+                 "a hook that answers AGAIN is invoked again on the same task object, untouched in between (C16: __parsec_task_progress); "
+                 "__parsec_schedule_vp consumes and clears the rings it is given (C08)",
                  "internal_init of a class runs once per taskpool and the startup generator starts from all-zero locals "
                  "(<jdf>_startup, C16)"],
 )
@@ -281,7 +310,7 @@ MANIFEST = dict(
          "check parsec_release_local_OUT_dependencies creates and queues (or, immediate class, runs) exactly one copy iff the dependency "
          "update answered ready; for a corpus of 4 JDF classes the generated internal_init counts exactly the local points of the declared "
          "space, and the generated startup generator creates exactly the local instances without input dependency, once each, with that "
-         "point's locals.  'other' because the JDFs are a corpus, the spaces small boxes (globals enumerated for the generator), and the "
+         "point's locals -- in one call (placement symbolic) and, for enumerated chunking parameters, across re-entries after AGAIN.  'other' because the JDFs are a corpus, the spaces small boxes (globals enumerated for the generator), and the "
          "step from the gates to the whole statement is an argument.",
     note="History: the jobs startup.neg.D.* failed before repository commit 1363cc4 -- for a range parameter with a negative step "
          "(i = NI .. 0 .. -1) jdf_generate_startup_tasks emitted 'i <= end' whatever the sign of the step, so no startup task of such a "
@@ -292,7 +321,9 @@ MANIFEST = dict(
          "a decreasing local-index range yields no instance for NI > 0 (counted 0, created 0: consistent, but the declared instances do "
          "not run) and leaves the declared space for NI <= 0.  "
          "NOT decided: JDFs outside the corpus (local indices, NEW/NULL flows, priorities, expression steps, user-defined startup); spaces "
-         "outside the boxes; re-entry of the generator after it answered AGAIN (parsec_task_startup_chunk reached: the opt-in jobs startup.reentry.* run out of memory; only generations that finish in one call are covered, for every parsec_task_startup_iter); more than one virtual "
+         "outside the boxes; chunking parameters, placements and spaces other than the enumerated startup_chunked.* configurations (chunk 0-5, iter 0-8, "
+         "boxes of 3, corpus classes tri.U / tri.T / box.B / neg.D: there the chunking clause IS decided; with a symbolic chunk, placement "
+         "or rank the state at the restore_context jump is a merge and CBMC 6.11 does not finish: > 10 min, > 6 GB for 3 tasks); more than one virtual "
          "process; recycled task objects popped from a non-empty mempool; release of remote successors; agreement of successor iteration "
          "with predecessor goals (C02); the schedulers under concurrency (C08); the composition itself.",
     technique="contracts (pre/post, ghost visit counters per point) on real parsec.c and on generated code cut by name, compiler rebuilt per "
